@@ -515,6 +515,129 @@ void op_str(Str const& a, Str const& b)
     sb.check("needle");
 }
 
+// ------------------------------------------------------------------ aliasing arguments
+// C lets the arguments of the read-only two-string functions alias: both pointers point into ONE block, either the
+// very same pointer (off == 0) or one argument is a proper suffix of the other (off > 0, either order); the prefix
+// relation is reached through the count of strncmp.  etl and the host library are called with the same two pointers.
+// (strcpy/strncpy/strcat/strncat must not overlap in C and are deliberately absent here.)
+char const* alias_kind(std::size_t off, bool swapped) { return off == 0 ? "same-pointer" : (swapped ? "first-is-suffix-of-second" : "second-is-suffix-of-first"); }
+
+void op_alias(Str const& a, std::size_t off, bool swapped, std::vector<std::size_t> const& ns)
+{
+    vfc::Src<Ch> sa(a);
+    Ch* const base = sa.b.data();
+    Str const suf  = a.substr(off);
+    Str const& x   = swapped ? suf : a; // value of the first argument
+    Str const& y   = swapped ? a : suf; // value of the second argument
+    Ch* const bx   = base + (swapped ? off : 0);
+    Ch* const by   = base + (swapped ? 0 : off);
+    auto px        = [&] { return opaque(bx); };
+    auto py        = [&] { return opaque(by); };
+    auto cpx       = [&] { return opaque(static_cast<C*>(bx)); };
+    auto cpy       = [&] { return opaque(static_cast<C*>(by)); };
+    char const* kind = alias_kind(off, swapped);
+    auto const hs  = vf::mix(vfc::hash(a), off * 2 + (swapped ? 1 : 0) + 0xA11A5);
+    bool const nt  = !a.empty();
+    char sit[120];
+    char args[400];
+    std::snprintf(args, sizeof args, "one block %s: arg1=block+%zu arg2=block+%zu", vfc::show(a).c_str(), (std::size_t)(bx - base), (std::size_t)(by - base));
+    {
+        char const* op = NM("strspn[alias]", "wcsspn[alias]");
+        std::size_t g  = ref::spn(cpx(), cpy());
+        std::snprintf(sit, sizeof sit, "%s,%s", kind, x.empty() ? "s-empty" : (g == 0 ? "span=0" : (g == x.size() ? "span=all" : "span=part")));
+        vf::crumb(SUBJ, op, sit, "%s", args);
+        std::size_t e = E(strspn, wcsspn)(cpx(), cpy());
+        vf::cover(op, hs, nt);
+        vf::eq_int("ret", e, g);
+    }
+    {
+        char const* op = NM("strcspn[alias]", "wcscspn[alias]");
+        std::size_t g  = ref::cspn(cpx(), cpy());
+        std::snprintf(sit, sizeof sit, "%s,%s", kind, x.empty() ? "s-empty" : (g == 0 ? "span=0" : (g == x.size() ? "span=all" : "span=part")));
+        vf::crumb(SUBJ, op, sit, "%s", args);
+        std::size_t e = E(strcspn, wcscspn)(cpx(), cpy());
+        vf::cover(op, hs, nt);
+        vf::eq_int("ret", e, g);
+    }
+    auto pcls = [&](C* g) { return y.empty() ? "set-empty" : (x.empty() ? "s-empty" : (g == nullptr ? "no-match" : (g == bx ? "match-at-0" : "match-later"))); };
+    {
+        char const* op = NM("strpbrk(char const*)[alias]", "wcspbrk(wchar_t const*)[alias]");
+        C* g           = ref::pbrk(cpx(), cpy());
+        std::snprintf(sit, sizeof sit, "%s,%s", kind, pcls(g));
+        vf::crumb(SUBJ, op, sit, "%s", args);
+        C* e = E(strpbrk, wcspbrk)(cpx(), cpy());
+        vf::cover(op, hs, nt);
+        vfc::eq_off("ret", vfc::off<Ch>(e, bx), vfc::off<Ch>(g, bx));
+    }
+    {
+        char const* op = NM("strpbrk(char*)[alias]", "wcspbrk(wchar_t*)[alias]");
+        Ch* g          = ref::pbrkm(px(), cpy());
+        std::snprintf(sit, sizeof sit, "%s,%s", kind, pcls(g));
+        vf::crumb(SUBJ, op, sit, "%s", args);
+        Ch* e = E(strpbrk, wcspbrk)(px(), py());
+        vf::cover(op, hs, nt);
+        vfc::eq_off("ret", vfc::off<Ch>(e, bx), vfc::off<Ch>(g, bx));
+    }
+    auto scls = [&](C* g) -> char const* {
+        if (y.empty()) { return x.empty() ? "needle-empty,hay-empty" : "needle-empty"; }
+        if (y.size() > x.size()) { return "needle-longer"; }
+        if (g == nullptr) { return "absent"; }
+        if (x.size() == y.size()) { return "match-whole"; }
+        if (g == bx) { return "match-prefix"; }
+        if (static_cast<std::size_t>(g - bx) == x.size() - y.size()) { return "match-suffix"; }
+        return "match-middle";
+    };
+    {
+        char const* op = NM("strstr(char const*)[alias]", "wcsstr(wchar_t const*)[alias]");
+        C* g           = ref::str(cpx(), cpy());
+        std::snprintf(sit, sizeof sit, "%s,%s", kind, scls(g));
+        vf::crumb(SUBJ, op, sit, "%s", args);
+        C* e = E(strstr, wcsstr)(cpx(), cpy());
+        vf::cover(op, hs, nt);
+        vfc::eq_off("ret", vfc::off<Ch>(e, bx), vfc::off<Ch>(g, bx));
+    }
+    {
+        char const* op = NM("strstr(char*)[alias]", "wcsstr(wchar_t*)[alias]");
+        Ch* g          = ref::strm(px(), cpy());
+        std::snprintf(sit, sizeof sit, "%s,%s", kind, scls(g));
+        vf::crumb(SUBJ, op, sit, "%s", args);
+        Ch* e = E(strstr, wcsstr)(px(), py());
+        vf::cover(op, hs, nt);
+        vfc::eq_off("ret", vfc::off<Ch>(e, bx), vfc::off<Ch>(g, bx));
+    }
+    {
+        char const* op = NM("strcmp[alias]", "wcscmp[alias]");
+        std::snprintf(sit, sizeof sit, "%s,%s", kind, relation(x, y));
+        vf::crumb(SUBJ, op, sit, "%s", args);
+        int g = ref::cmp(cpx(), cpy());
+        int e = E(strcmp, wcscmp)(cpx(), cpy());
+        vf::cover(op, hs, nt);
+        vf::eq_sign("ret", e, g);
+    }
+    std::size_t const d = first_diff(x, y);
+    bool const equal    = d == x.size() && d == y.size();
+    for (std::size_t n : ns) {
+        char const* op = NM("strncmp[alias]", "wcsncmp[alias]");
+        std::snprintf(sit, sizeof sit, "%s,%s,%s", kind, relation(x, y),
+            n == SMAX ? "n=max" : (n == 0 ? "n=0" : (equal ? (n < d ? "n<len" : (n == d ? "n=len" : "n-past-end")) : (n <= d ? "n-before-diff" : "n-past-diff"))));
+        vf::crumb(SUBJ, op, sit, "%s n=%lld", args, P(n));
+        int g = ref::ncmp(cpx(), cpy(), opaque(n));
+        int e = E(strncmp, wcsncmp)(cpx(), cpy(), opaque(n));
+        vf::cover(op, vf::mix(hs, n), nt);
+        vf::eq_sign("ret", e, g);
+    }
+    sa.check("aliased block");
+}
+
+// every offset (enumerated) or a few offsets (random) of the second pointer inside the block of `a`, both argument orders
+void alias_all(Str const& a, std::vector<std::size_t> const& offs, std::vector<std::size_t> const& ns)
+{
+    for (std::size_t off : offs) {
+        op_alias(a, off, false, ns);
+        if (off != 0) { op_alias(a, off, true, ns); }
+    }
+}
+
 // characters to look for in `a`: every alphabet symbol, an absent one, the terminator and (char only) int
 // values outside the range of char that C converts to char before the search
 void chr_all(Str const& a, Ch (*sym)(unsigned), unsigned A)
@@ -538,7 +661,8 @@ void chr_all(Str const& a, Ch (*sym)(unsigned), unsigned A)
 // The "array" presentations (most likely to trip a sanitizer) run last so that a crash in one of them
 // cannot hide the other operations of the same case.
 void all_ops(Str const& a, Str const& b, bool single, Ch (*sym)(unsigned), unsigned A, std::vector<std::size_t> const& ncmps,
-    std::vector<std::size_t> const& ncats, std::vector<std::size_t> const& ncpys)
+    std::vector<std::size_t> const& ncats, std::vector<std::size_t> const& ncpys, std::vector<std::size_t> const& aoffs = {},
+    std::vector<std::size_t> const& ancmps = {})
 {
     op_spn(a, b);
     op_pbrk(a, b);
@@ -550,6 +674,7 @@ void all_ops(Str const& a, Str const& b, bool single, Ch (*sym)(unsigned), unsig
         op_cpy(a);
         for (std::size_t n : ncpys) { op_ncpy(a, n, false); }
         chr_all(a, sym, A);
+        alias_all(a, aoffs, ancmps);
     }
     op_cmp(a, b);
     for (std::size_t n : ncmps) { op_ncmp(a, b, n, false); }
@@ -589,10 +714,14 @@ void run_case(vf::Case& c)
         for (std::size_t n = 0; n <= b.size() + 2; ++n) { ncats.push_back(n); }
         ncats.push_back(SMAX);
         if (vf::want_sample("pair")) { vf::sample("pair", "a=%s b=%s: every function, every count 0..len+2 and SIZE_MAX", vfc::show(a).c_str(), vfc::show(b).c_str()); }
+        std::vector<std::size_t> aoffs, ancmps;
         if (single) {
             for (std::size_t n = 0; n <= a.size() + 2; ++n) { ncpys.push_back(n); }
+            for (std::size_t o = 0; o <= a.size(); ++o) { aoffs.push_back(o); } // o == size: the second pointer is the terminator
+            for (std::size_t n = 0; n <= a.size() + 2; ++n) { ancmps.push_back(n); }
+            ancmps.push_back(SMAX);
         }
-        all_ops(a, b, single, sym, A, ncmps, ncats, ncpys);
+        all_ops(a, b, single, sym, A, ncmps, ncats, ncpys, aoffs, ancmps);
         return;
     }
     // ---- seeded random: longer strings, b related to a in various ways
@@ -634,7 +763,13 @@ void run_case(vf::Case& c)
     ncats          = {0, b.size(), (std::size_t)r.below(b.size() + 3), b.size() + 1, SMAX};
     ncpys          = {0, a.size(), a.size() + 1, (std::size_t)r.below(a.size() + 3), a.size() + 1 + (std::size_t)r.below(20)};
     if (vf::want_sample("random")) { vf::sample("random", "a=%s b=%s", vfc::show(a).c_str(), vfc::show(b).c_str()); }
-    all_ops(a, b, true, sym, A, ncmps, ncats, ncpys);
+    std::vector<std::size_t> aoffs{0, a.size()};
+    if (!a.empty()) {
+        aoffs.push_back(1 + (std::size_t)r.below(a.size()));
+        aoffs.push_back((std::size_t)r.below(a.size()));
+    }
+    std::vector<std::size_t> ancmps{0, 1, (std::size_t)r.below(a.size() + 3), a.size(), a.size() + 1, SMAX};
+    all_ops(a, b, true, sym, A, ncmps, ncats, ncpys, aoffs, ancmps);
 }
 } // namespace
 
